@@ -22,7 +22,9 @@ VHdrs(b) == {[b EXCEPT !.hdrs = <<H("X-K", k, "v")>>] : k \in HdrKinds}
             \cup {[b EXCEPT !.hdrs = <<H("X-K", "is_equals", "V")>>], [b EXCEPT !.hdrs = <<H("x-k", "contains", "V")>>],
                   [b EXCEPT !.hdrs = <<H("X-K", "match_regex", "k-@m")>>], [b EXCEPT !.hdrs = <<H("X-K", "match_regex", "K-@m")>>],
                   [b EXCEPT !.hdrs = <<H("X-K", "is_defined", ""), H("X-J", "is_equals", "v")>>],
-                  [b EXCEPT !.hdrs = <<H("X-K", "contains", "v"), H("X-J", "is_not_defined", "")>>]}
+                  [b EXCEPT !.hdrs = <<H("X-K", "contains", "v"), H("X-J", "is_not_defined", "")>>],
+                  \* two groups sharing a condition, the first group also holding a smaller (failing) one
+                  [b EXCEPT !.hdrs = <<H("X-J", "is_defined", ""), H("X-K", "is_defined", "")>>]}
 VDates(b) == {[b EXCEPT !.dates = <<W1>>], [b EXCEPT !.dates = <<W2>>], [b EXCEPT !.dates = <<W1, W2>>],
               [b EXCEPT !.times = <<TW>>], [b EXCEPT !.wds = <<"Sun">>], [b EXCEPT !.wds = <<"Mon", "Tue">>],
               [b EXCEPT !.dates = <<W1>>, !.times = <<TW>>], [b EXCEPT !.times = <<TW>>, !.wds = <<"Mon">>],
@@ -46,6 +48,7 @@ QuickPick(b) == {b, [b EXCEPT !.scheme = "https"], [b EXCEPT !.host = <<"static"
                  [b EXCEPT !.methods = <<"GET", "POST">>, !.excl = TRUE], [b EXCEPT !.methods = <<"POST">>],
                  [b EXCEPT !.hdrs = <<H("X-K", "is_not_equal_to", "v")>>], [b EXCEPT !.hdrs = <<H("X-K", "contains", "v"), H("X-J", "is_not_defined", "")>>],
                  [b EXCEPT !.hdrs = <<H("X-K", "match_regex", "k-@m")>>], [b EXCEPT !.hdrs = <<H("X-K", "match_regex", "K-@m")>>],
+                 [b EXCEPT !.hdrs = <<H("X-J", "is_defined", ""), H("X-K", "is_defined", "")>>], [b EXCEPT !.hdrs = <<H("X-K", "is_defined", "")>>],
                  [b EXCEPT !.dates = <<W1>>], [b EXCEPT !.times = <<TW>>, !.wds = <<"Mon">>],
                  [b EXCEPT !.path = <<"static", "/A">>], [b EXCEPT !.path = <<"dyn", "/x/@m">>], [b EXCEPT !.path = <<"dyn", "/x/@m/y">>],
                  [b EXCEPT !.path = <<"dyn", "/X/@m">>], [b EXCEPT !.path = <<"dyn", "/X/@m/y">>]}
